@@ -117,6 +117,9 @@ func (e *ctxEval) descCall(call *ssa.Call, res int, stack []*ssa.Call, d int) st
 		a := call.Common().Args
 		return "append(" + e.desc(a[0], stack, d+1) + ", " + e.desc(a[1], stack, d+1) + "...)"
 	}
+	if n == "builtin.len" {
+		return "len(" + e.desc(call.Common().Args[0], stack, d+1) + ")"
+	}
 	g := call.Common().StaticCallee()
 	if g == nil || g.Blocks == nil || !e.c.P.IsRepoFunc(g) || len(stack) > 6 {
 		return "call:" + n
@@ -200,6 +203,14 @@ func (e *ctxEval) fieldOfAddr(base ssa.Value, f int, stack []*ssa.Call, d int) s
 					return e.fieldOfAddr(top.Common().Args[i], f, stack[:len(stack)-1], d+1)
 				}
 			}
+		}
+		if path := e.addrPath(b, stack, 0); path != "" {
+			return path + "." + fieldNameOf(b.Type(), f)
+		}
+	case *ssa.FieldAddr:
+		// a struct nested in another (c.metrics.hits): named by its access path
+		if path := e.addrPath(b, stack, 0); path != "" {
+			return path + "." + fieldNameOf(b.Type(), f)
 		}
 	case *ssa.UnOp:
 		// pointer held in a local
@@ -371,3 +382,42 @@ func reachCall(c *Ctx, fn *ssa.Function, target string, stack []*ssa.Call, depth
 }
 
 var _ = fmt.Sprintf
+
+// addrPath names the object an address denotes when it is (a nested field of)
+// a pointer parameter of the outermost function: param:c, param:c.metrics.
+func (e *ctxEval) addrPath(v ssa.Value, stack []*ssa.Call, d int) string {
+	if d > 6 {
+		return ""
+	}
+	switch x := v.(type) {
+	case *ssa.Parameter:
+		if len(stack) > 0 {
+			top := stack[len(stack)-1]
+			if top.Common().StaticCallee() == x.Parent() {
+				if i := e.paramIndex(x); i >= 0 && i < len(top.Common().Args) {
+					return e.addrPath(top.Common().Args[i], stack[:len(stack)-1], d+1)
+				}
+			}
+			return ""
+		}
+		return "param:" + x.Name()
+	case *ssa.FieldAddr:
+		base := e.addrPath(x.X, stack, d+1)
+		if base == "" {
+			return ""
+		}
+		return base + "." + ssau.FieldName(x)
+	}
+	return ""
+}
+
+// fieldNameOf: the name of field #f of the struct (pointed to by) t.
+func fieldNameOf(t types.Type, f int) string {
+	if p, ok := t.Underlying().(*types.Pointer); ok {
+		t = p.Elem()
+	}
+	if st, ok := t.Underlying().(*types.Struct); ok && f < st.NumFields() {
+		return st.Field(f).Name()
+	}
+	return fmt.Sprintf("#%d", f)
+}
